@@ -110,8 +110,9 @@ def label_case(rec, pvl, key, tier, tmp, holder):
     label_bytes = text.encode("utf-8")
     tail_iter = [("none", b"")] if non_ascii else list(tails(rng, tier, len(label_bytes)))
     for tname, tail in tail_iter:
-        sep = rng.choice((b"\n", b"\r\n", b" ", b";", b";\n")) if tail or \
-            rng.random() < 0.5 else b""
+        sep = rng.choice((b"\n", b"\r\n", b" ", b";", b";\n", b" /* end of label */\n",
+                          b"\n/* image data follows */", b" # end\n", b"; /* c */ ")) \
+            if tail or rng.random() < 0.5 else b""
         data = label_bytes + sep + tail
         path = os.path.join(tmp, "label.lbl")
         with open(path, "wb") as f:
